@@ -997,11 +997,17 @@ def graphql_schema(
         id_type: graphql.GraphQLScalarType = graphql.GraphQLID
     else:
         id_deserializer, id_serializer = id_encoding
+
+        def parse_literal(node, variables=None):
+            # ID given as a literal in the query has to be decoded as the ones in variables
+            value = graphql.GraphQLID.parse_literal(node, variables)
+            return id_deserializer(value) if id_deserializer is not None else value
+
         id_type = graphql.GraphQLScalarType(
             name="ID",
             serialize=id_serializer or graphql.GraphQLID.serialize,
             parse_value=id_deserializer or graphql.GraphQLID.parse_value,
-            parse_literal=graphql.GraphQLID.parse_literal,
+            parse_literal=parse_literal,
             description=graphql.GraphQLID.description,
         )
 
